@@ -137,6 +137,11 @@ def gen_module(rng, helper_name):
                     out += [pad + "if __name__ == '__main__':", pad + '    def only_main%d():' % nid(), pad + '        """', pad + '        >>> print("main only")', pad + '        """', pad + 'else:'] + block(indent + 4, depth + 1)
         return out
     L += block(0, 0)
+    if rng.random() < 0.25:
+        # PEP 562 module attributes: what dir(module) / getattr(module, ...) answer is the module's business and must not
+        # decide which definitions exist
+        L += ['', '__all__ = ["local_deco"]', '', 'def __dir__():', '    return sorted(__all__)', '',
+              'def __getattr__(name):', '    raise AttributeError(name)', '']
     return '\n'.join(L) + '\n'
 
 
